@@ -46,6 +46,8 @@ _RESULTS = {
 PROPS = {
     "C15": dict(
         src="Properties/C15.v", target="Properties/C15.vo",
+        # statements about the tree as it is: the "flag is repaired" premises discharged against Extracted.Facts
+        more_src=["Properties/C15Current.v"],
         support=["Resolve/Model.vo"], run_targets=["Run/ResolveCases.vo"],
         drivers=[
             dict(name="resolve", n_quick=2400, n_thorough=24000, shard=600, results=_RESULTS),
